@@ -40,6 +40,9 @@ def generate(rng, tier):
         cfg['p_dir'] = rng.choice([0.08, 0.2])
         cfg['p_inline_dir'] = rng.choice([0.0, 0.15])
     cfg['p_indent'] = rng.choice([0.0, 0.3, 0.6])
+    cfg['p_header_prose'] = rng.choice([0.0, 0.5])
+    if rng.random() < 0.3:
+        cfg['forms'] += ['coroexpr']
     flavour = rng.choice(['sync', 'sync', 'async', 'async', 'mixed'])
     if flavour != 'sync':
         cfg['async_forms'] = list(gen.ASYNC_FORMS)
